@@ -21,26 +21,26 @@ type frameSpec struct {
 }
 
 type clientSpec struct {
-	Form    string      `json:"form"`   // connect_post connect_get connect_stream grpc grpcweb rest
-	Method  string      `json:"method"` // method name in verif.v1.Svc
-	Codec   string      `json:"codec"`
-	Comp    string      `json:"comp"` // "", gzip, zz, unknown
-	Accept  []string    `json:"accept"`
-	Major   int         `json:"major"` // HTTP major version, 0 = default for the form
-	HTTP    string      `json:"http"`  // HTTP method override
-	Frames  []frameSpec `json:"frames"`
-	Cut     string      `json:"cut"`  // "", env:<k> (inside last envelope after k bytes), pay:<k>, at:<offset>
-	CLen    string      `json:"clen"` // "", exact, over, under
-	Hdrs    []string    `json:"hdrs"` // header classes
-	Timeout string      `json:"timeout"`
-	Chunks  []int       `json:"chunks"`
-	Path    string      `json:"path"`  // path override (unknown paths etc.)
-	CT      string      `json:"ct"`    // content-type override ("-" = none)
-	Extra   []string    `json:"extra"` // extra raw header lines "K: V"
-	Base64  string      `json:"b64"`   // connect_get: "", "1", "0", "bad"
-	NoFlush bool        `json:"noflush"`
-	Rej     string      `json:"rej"` // rejection class the generator aimed at ("" = none)
-	GetDelta string     `json:"getdelta"` // C19: max GET URL length relative to the exact URL length: "", m1, 0, p1
+	Form     string      `json:"form"`   // connect_post connect_get connect_stream grpc grpcweb rest
+	Method   string      `json:"method"` // method name in verif.v1.Svc
+	Codec    string      `json:"codec"`
+	Comp     string      `json:"comp"` // "", gzip, zz, unknown
+	Accept   []string    `json:"accept"`
+	Major    int         `json:"major"` // HTTP major version, 0 = default for the form
+	HTTP     string      `json:"http"`  // HTTP method override
+	Frames   []frameSpec `json:"frames"`
+	Cut      string      `json:"cut"`  // "", env:<k> (inside last envelope after k bytes), pay:<k>, at:<offset>
+	CLen     string      `json:"clen"` // "", exact, over, under
+	Hdrs     []string    `json:"hdrs"` // header classes
+	Timeout  string      `json:"timeout"`
+	Chunks   []int       `json:"chunks"`
+	Path     string      `json:"path"`  // path override (unknown paths etc.)
+	CT       string      `json:"ct"`    // content-type override ("-" = none)
+	Extra    []string    `json:"extra"` // extra raw header lines "K: V"
+	Base64   string      `json:"b64"`   // connect_get: "", "1", "0", "bad"
+	NoFlush  bool        `json:"noflush"`
+	Rej      string      `json:"rej"`      // rejection class the generator aimed at ("" = none)
+	GetDelta string      `json:"getdelta"` // C19: max GET URL length relative to the exact URL length: "", m1, 0, p1
 }
 
 type endSpec struct {
@@ -68,20 +68,20 @@ type handlerSpec struct {
 	Fault   string      `json:"fault"` // "", cutenv:<k>, cutpay, afterend, badendjson, ...
 	NoRead  bool        `json:"noread"`
 	NoClose bool        `json:"noclose"` // do not close the request body (handlers normally do)
-	Ignore  bool        `json:"ignore"` // ignore request-side failures (hostile handler)
+	Ignore  bool        `json:"ignore"`  // ignore request-side failures (hostile handler)
 }
 
 type scenario struct {
-	SID    string            `json:"sid"`
-	Fam    string            `json:"fam"`
-	Seed   int64             `json:"seed,omitempty"` // concretisation seed (set on replay; otherwise derived from the run seed)
-	Cfg    cfgSpec           `json:"cfg"`
-	Cl     clientSpec        `json:"cl"`
-	Hd     handlerSpec       `json:"hd"`
-	WatchPool  bool          `json:"watchpool"`  // record the pool hook's events for this RPC's Transcoder
-	EmptyFirst bool          `json:"emptyfirst"` // message 1 is the empty message (zero-length payload)
-	Msgs   map[string]string `json:"msgs,omitempty"` // id -> kind class ("" = harness picks by seed)
-	Params map[string]any    `json:"params,omitempty"`
+	SID        string            `json:"sid"`
+	Fam        string            `json:"fam"`
+	Seed       int64             `json:"seed,omitempty"` // concretisation seed (set on replay; otherwise derived from the run seed)
+	Cfg        cfgSpec           `json:"cfg"`
+	Cl         clientSpec        `json:"cl"`
+	Hd         handlerSpec       `json:"hd"`
+	WatchPool  bool              `json:"watchpool"`      // record the pool hook's events for this RPC's Transcoder
+	EmptyFirst bool              `json:"emptyfirst"`     // message 1 is the empty message (zero-length payload)
+	Msgs       map[string]string `json:"msgs,omitempty"` // id -> kind class ("" = harness picks by seed)
+	Params     map[string]any    `json:"params,omitempty"`
 }
 
 // ---------------------------------------------------------------- observations
@@ -117,20 +117,20 @@ type dispatchObs struct {
 	Codec   string     `json:"codec"`
 	Enc     string     `json:"enc"`
 	Accept  []string   `json:"accept"`
-	Ctl     []string   `json:"ctl"`   // control headers present, canonical names
-	Bad     []string   `json:"bad"`   // syntactic problems found by the strict parser
-	CLen    int        `json:"clen"`  // request.ContentLength
+	Ctl     []string   `json:"ctl"`  // control headers present, canonical names
+	Bad     []string   `json:"bad"`  // syntactic problems found by the strict parser
+	CLen    int        `json:"clen"` // request.ContentLength
 	Frames  []frameObs `json:"frames"`
 	Rest    int        `json:"rest"`    // dangling bytes of a partial envelope
 	ReadErr string     `json:"readerr"` // "", eof-clean, error text class
 	Timeout string     `json:"timeout"`
-	Hdrs    []string   `json:"hdrs"`  // scenario header tokens seen intact
-	Lost    []string   `json:"lost"`  // scenario header tokens missing or altered
-	Same    bool       `json:"same"`  // pass-through: request identical to what the client sent
-	Diff    []string   `json:"diff"`  // what differed, when !Same
-	Query   string     `json:"query"` // none | connectget | other
+	Hdrs    []string   `json:"hdrs"`   // scenario header tokens seen intact
+	Lost    []string   `json:"lost"`   // scenario header tokens missing or altered
+	Same    bool       `json:"same"`   // pass-through: request identical to what the client sent
+	Diff    []string   `json:"diff"`   // what differed, when !Same
+	Query   string     `json:"query"`  // none | connectget | other
 	URLLen  int        `json:"urllen"` // len(path) + 1 + len(raw query)
-	HErr    int        `json:"herr"`  // RPC code the faithful handler decided to answer with (0 = scripted reply)
+	HErr    int        `json:"herr"`   // RPC code the faithful handler decided to answer with (0 = scripted reply)
 }
 
 type clientObs struct {
@@ -146,9 +146,9 @@ type clientObs struct {
 	Frames     []frameObs `json:"frames"`
 	Rest       int        `json:"rest"`
 	End        endObs     `json:"end"`
-	Ends       int        `json:"ends"`  // number of terminal dispositions signalled
+	Ends       int        `json:"ends"`   // number of terminal dispositions signalled
 	EndDup     string     `json:"enddup"` // gRPC: status repeated in headers and trailers: same | diff
-	After      int        `json:"after"` // bytes after the terminal disposition
+	After      int        `json:"after"`  // bytes after the terminal disposition
 	Hdrs       []string   `json:"hdrs"`
 	Lost       []string   `json:"lost"`
 	Allow      []string   `json:"allow"`
@@ -176,15 +176,15 @@ type refObs struct {
 }
 
 type observation struct {
-	SID  string        `json:"sid"`
-	Ev   string        `json:"ev"`
-	Scn  *scenario     `json:"scn"`
-	Disp []dispatchObs `json:"disp"`
-	Cl   clientObs     `json:"cl"`
-	Ret  retObs        `json:"ret"`
-	MaxGet int         `json:"maxget"` // the max GET URL length the transcoder was configured with (0 = default)
-	Ref  refObs        `json:"ref"`
-	Pool []poolEvent   `json:"pool"`   // pool hook events of the Transcoder this RPC ran on (history / concurrency families)
-	PoolMaxCap int     `json:"poolmaxcap"`
-	Note string        `json:"note"`
+	SID        string        `json:"sid"`
+	Ev         string        `json:"ev"`
+	Scn        *scenario     `json:"scn"`
+	Disp       []dispatchObs `json:"disp"`
+	Cl         clientObs     `json:"cl"`
+	Ret        retObs        `json:"ret"`
+	MaxGet     int           `json:"maxget"` // the max GET URL length the transcoder was configured with (0 = default)
+	Ref        refObs        `json:"ref"`
+	Pool       []poolEvent   `json:"pool"` // pool hook events of the Transcoder this RPC ran on (history / concurrency families)
+	PoolMaxCap int           `json:"poolmaxcap"`
+	Note       string        `json:"note"`
 }
